@@ -553,6 +553,13 @@ def c_oracles(tokens, stats):
                     bad.append(("handler", "handler ran on released client session %d" % sid))
             elif k == "U":
                 bad.append(("uaf", "released session %s used: %s" % (f[2] if len(f) > 2 else "?", f[1])))
+            elif k == "G":
+                # several live sessions may go to the same peer (an older one kept by a queued
+                # message): any of them is a correct answer, none is not
+                if int(f[3]) == 0 or int(f[3]) not in live:
+                    bad.append(("get-by-peer", "after a refused duplicate coap_session_get_by_peer finds "
+                                "session %s for the peer of the existing client session %s" % (f[3], f[2])))
+                facts["dups"] = facts.get("dups", 0) + 1
             elif k == "C":
                 facts["explicit_free"] = True
                 left = sorted(s for s in live if appref.get(s, 0) > 1)
